@@ -218,8 +218,16 @@ def registry_inputs(name, m, sv, limit=600, funcs=('validate',)):
             continue
         paths = list(dict.fromkeys(p for p, _props in _paths(db.prefixes)))
         if len(paths) > limit:
+            # every top-level entry with its first nested path is kept, the rest is sampled with a fixed stride
+            top = []
+            for length, low, high, props, children in db.prefixes[:400]:
+                top.append(low)
+                if children:
+                    top.append(low + children[0][1])
+                    if children[0][4]:
+                        top.append(low + children[0][1] + children[0][4][0][1])
             step = len(paths) / float(limit)
-            paths = [paths[int(i * step)] for i in range(limit)]
+            paths = list(dict.fromkeys(top + [paths[int(i * step)] for i in range(limit)]))
         for p in paths:
             cands = [p, p + '0', p + '000000', p + '123456', p + '0' * 14]
             for v in seeds:
